@@ -447,3 +447,64 @@ def rule_selector_no_cache(db: ProgramDB) -> List[Instance]:
                             f"the conclusions (and truth flags) the selection reads are then those of an earlier row, so rows of "
                             f"a rule tree lose or swap their conclusions on re-evaluation with caching enabled", line=call.lineno))
     return out
+
+
+# ---------------------------------------------------------------------------------- CHECK-IS-PURE / RETRIEVE-ALL-BRANCHES
+def rule_check_is_pure(db: ProgramDB) -> List[Instance]:
+    """Asking whether a lookup is covered must not change what is covered ('checking is not storing')."""
+    out = []
+    for cname in ("SeenSet", "IndexedCache"):
+        c = db.cls(cname)
+        m = c.methods.get("check")
+        if m is None:
+            raise AnalysisError(f"{cname}.check not found")
+        from .history import self_mutating_methods
+        mut = "check" in self_mutating_methods(db, c)
+        out.append(inst("CHECK-IS-PURE", VIOLATION if mut else HOLDS, m, f"{cname}.check",
+                        f"{cname}.check() writes the coverage state it is asked about: a lookup that binds none of the keys marks "
+                        f"the index as covering everything although nothing was stored, and later lookups are answered from "
+                        f"whatever the index happens to hold" if mut else f"{cname}.check() only reads"))
+    return out
+
+
+def rule_retrieve_all_branches(db: ProgramDB) -> List[Instance]:
+    """Retrieval returns *each* stored entry that agrees with the lookup.  At one level of the index an entry agrees if it
+    binds the key to the looked-up value or does not bind it (wildcard); when the lookup does not bind the key, every entry
+    agrees.  The wildcard branch is therefore one of the branches to follow, never an alternative to the others."""
+    out = []
+    ic = db.cls("IndexedCache")
+    m = ic.methods.get("retrieve")
+    if m is None:
+        raise AnalysisError("IndexedCache.retrieve not found")
+    wild_names = set()
+    for a in own_nodes(m.node):
+        if isinstance(a, ast.Assign) and isinstance(a.value, ast.Call) and call_attr(a.value) == "get" and a.value.args \
+                and unparse(a.value.args[0]) in ("All", "ALL") and isinstance(a.targets[0], ast.Name):
+            wild_names.add(a.targets[0].id)
+    n = 0
+    # (a) unbound key: exploring all branches must not be the alternative of 'a wildcard exists'
+    for node in own_nodes(m.node):
+        if isinstance(node, ast.If) and any(isinstance(x, ast.Name) and x.id in wild_names for x in ast.walk(node.test)):
+            loops = [l for l in node.orelse for l in ast.walk(l) if isinstance(l, ast.For) and "items()" in unparse(l.iter)]
+            if loops:
+                n += 1
+                out.append(inst("RETRIEVE-ALL-BRANCHES", VIOLATION, m, "IndexedCache.retrieve[unbound key: wildcard instead of all branches]",
+                                "when the lookup does not bind a key and a wildcard entry exists at that level, only the wildcard "
+                                "branch is followed: the entries that bind the key are not returned", line=node.lineno))
+    # (b) bound key: the wildcard branch is consulted only when the concrete value is missing
+    for node in own_nodes(m.node):
+        if isinstance(node, ast.If) and isinstance(node.test, ast.Compare) and isinstance(node.test.ops[0], ast.Is) \
+                and isinstance(node.test.comparators[0], ast.Constant) and node.test.comparators[0].value is None:
+            gets = [c for s_ in node.body for c in ast.walk(s_) if isinstance(c, ast.Call) and call_attr(c) == "get" and c.args
+                    and unparse(c.args[0]) in ("All", "ALL")]
+            if gets:
+                n += 1
+                out.append(inst("RETRIEVE-ALL-BRANCHES", VIOLATION, m, "IndexedCache.retrieve[bound key: wildcard only if concrete missing]",
+                                "when the lookup binds a key, the wildcard branch of that level is followed only if no entry binds "
+                                "the key to the looked-up value: entries that leave the key open are not returned next to it",
+                                line=node.lineno))
+    if n == 0:
+        # all-branches implementations: a loop over (value, All) / over cache.items() without wildcard exclusivity
+        out.append(inst("RETRIEVE-ALL-BRANCHES", HOLDS, m, "IndexedCache.retrieve",
+                        "no level of the walk treats the wildcard branch as an alternative to the concrete ones"))
+    return out
